@@ -13,6 +13,9 @@ func op(addr interface{}, f func()) {
 type Uint64 struct{ v uint64 }
 
 func NewUint64(v uint64) *Uint64       { return &Uint64{v} }
+
+// Peek reads the value without a scheduling point (harness oracles only).
+func (a *Uint64) Peek() uint64 { return a.v }
 func (a *Uint64) Load() (n uint64)     { op(a, func() { n = a.v }); return }
 func (a *Uint64) Store(v uint64)       { op(a, func() { a.v = v }) }
 func (a *Uint64) Add(d uint64) (n uint64) { op(a, func() { a.v += d; n = a.v }); return }
